@@ -3875,10 +3875,9 @@ class ImpliesSimplifyMacro(Macro):
         # case 8: (P --> ~P) <--> ~P
         elif concl == Not(prem) and rhs == concl:
             return Thm(goal)
-        # case 9: (P --> Q) --> Q <--> P | Q
-        elif prem.is_implies() and rhs.is_disj() and prem.arg1.is_implies() \
-                and prem.arg1.arg1 == rhs.arg1 and prem.arg1.arg == prem.arg \
-                    and prem.arg == rhs.arg:
+        # case 9: ((P --> Q) --> Q) <--> P | Q
+        elif prem.is_implies() and rhs.is_disj() and prem.arg1 == rhs.arg1 \
+                and prem.arg == concl and concl == rhs.arg:
             return Thm(goal)
         else:
             print("goal", goal)
@@ -3915,10 +3914,9 @@ class ImpliesSimplifyMacro(Macro):
         # case 8: (P --> ~P) <--> ~P
         elif concl == Not(prem) and rhs == concl:
             return logic.apply_theorem('verit_imp_simplify8', concl=goal)
-        # case 9: (P --> Q) --> Q <--> P | Q
-        elif prem.is_implies() and rhs.is_disj() and prem.arg1.is_implies() \
-                and prem.arg1.arg1 == rhs.arg1 and prem.arg1.arg == prem.arg \
-                    and prem.arg == rhs.arg:
+        # case 9: ((P --> Q) --> Q) <--> P | Q
+        elif prem.is_implies() and rhs.is_disj() and prem.arg1 == rhs.arg1 \
+                and prem.arg == concl and concl == rhs.arg:
             return logic.apply_theorem('verit_imp_simplify9', concl=goal)
         else:
             print("goal", goal)
